@@ -9,7 +9,8 @@ import paramiko.transport as _ptr
 from paramiko.server import InteractiveQuery
 
 from vf.authkit import (AUTH_FAILED, AUTH_PARTIALLY_SUCCESSFUL, AUTH_SUCCESSFUL, MSG_USERAUTH_INFO_RESPONSE,
-                        MSG_USERAUTH_REQUEST, MSG_USERAUTH_SUCCESS, FenceTimeout, Sess, episodes, sstr, started, u32)
+                        MSG_USERAUTH_REQUEST, MSG_USERAUTH_SUCCESS, FenceTimeout, Rd, Sess, Short, episodes, sstr,
+                        started, u32)
 from vf.g2kit import RekeySess, RekeyTrouble, wait_until
 from vf.props.c14 import KRB5_OID, install_gss_stub
 
@@ -34,7 +35,12 @@ META = dict(
          "confirmed on the victim's tap; an authenticated control at the same position makes the monitors fire); (b) "
          "sequences of 8..12 events in which failed logins and connection-layer requests are mixed, the request "
          "being the k-th event for every k, fenced and pipelined, including requests queued directly behind the "
-         "tenth failed login.",
+         "tenth failed login. Round 4: every refusal sent before authentication is parsed strictly and matched to "
+         "the request it answers (CHANNEL_OPEN_FAILURE: uint32 recipient = sender channel of the oldest unanswered "
+         "open, reason 1..4, two strings, nothing trailing; REQUEST_FAILURE: bare type byte, never more than requests "
+         "read; nothing left unanswered on a live connection); field-value sessions send opens with sender channels "
+         "across the uint32 range, odd window / packet sizes, long kind strings, and global requests with want_reply "
+         "on/off and long names.",
     note="The victim may die on such messages (e.g. the empty _ensure_authed reply, unknown channel ids); dying "
          "refuses the request and is C38's subject, not judged here. One session per enumerated probe (+ up to two "
          "random follow-up probes while the victim lives).",
@@ -293,6 +299,7 @@ def judge(ctx, sess, desc, pmark, since_n, control=False, prefix=None, context="
     if granted:
         ctx.inconclusive("harness: a USERAUTH_SUCCESS was sent in a session meant to stay unauthenticated")
         return
+    check_refusals(ctx, sess, desc, since_n, context)
 
     def trig(n):
         """message type of the episode containing event number n"""
@@ -321,7 +328,7 @@ def judge(ctx, sess, desc, pmark, since_n, control=False, prefix=None, context="
         break
 
 
-def run_session(ctx, rng, desc):
+def run_session(ctx, rng, desc, context=""):
     point = desc["point"]
     sess = started(lambda: Sess(rng, policy=policy_for(point)), lambda s: s.start(auth=False))
     if sess is None:
@@ -345,7 +352,7 @@ def run_session(ctx, rng, desc):
             if st == "dead":
                 ctx.count("victim_ended_after_probe")
                 break
-        judge(ctx, sess, desc, pmark, since_n)
+        judge(ctx, sess, desc, pmark, since_n, context=context)
         ctx.case(("c15", repr(desc)), sample=desc if desc.get("sample") else None, nontrivial=read_any)
     except FenceTimeout as e:
         ctx.inconclusive("fence timeout: %s" % e)
@@ -380,6 +387,205 @@ def run_control(ctx, rng):
         ctx.inconclusive("control fence timeout: %s" % e)
     finally:
         sess.close()
+
+
+# ---------------------------------------------------------------------------
+# round 4: every refusal is parsed strictly and matched to the request it answers
+
+SENDER_VALUES = [0, 1, 0xFFFFFF, 0x1000000, 0x7FFFFFFF, 0x80000000, 0xFEFFFFFF, 0xFF000000, 0xFF000001, 0xFFFFFFFF]
+
+
+def parse_open(payload):
+    """(kind bytes, sender channel) of a CHANNEL_OPEN whose first two fields are all there, else None."""
+    try:
+        r = Rd(payload, 1)
+        return r.string(), r.u32()
+    except Short:
+        return None
+
+
+def parse_global(payload):
+    try:
+        r = Rd(payload, 1)
+        return r.string(), r.boolean()
+    except Short:
+        return None
+
+
+def parse_open_failure(payload):
+    """Strict: uint32 recipient, uint32 reason (1..4), string description, string language, nothing trailing."""
+    try:
+        r = Rd(payload, 1)
+        rec, reason = r.u32(), r.u32()
+        r.string()
+        r.string()
+        if not r.done():
+            return None, "trailing bytes"
+        if not 1 <= reason <= 4:
+            return None, "reason code outside 1..4"
+        return rec, None
+    except Short:
+        return None, "truncated"
+
+
+def check_refusals(ctx, sess, desc, since_n, context):
+    """Walk the victim's traffic since `since_n` in wire order.  Every CHANNEL_OPEN_FAILURE must be well-formed and
+    answer the oldest unanswered CHANNEL_OPEN, naming that open's sender channel; every REQUEST_FAILURE must be the
+    bare type byte and there may not be more of them than global requests read; if the victim is still there at the
+    end (and not inside a key exchange, where replies are held back) no open and no want_reply request may be left
+    without its refusal."""
+    v = sess.victim
+    pending = []  # [expected recipient or None (open not parseable), kind length]
+    n_glob = n_want = n_82 = 0
+    wit0 = dict(session=desc)
+    for e in sess.rec.snapshot():
+        if e.get("kind") != "msg" or e["side"] != "v" or e["n"] < since_n:
+            continue
+        t = e["type"]
+        if e["dir"] == "in":
+            if t == 90:
+                po = parse_open(e["payload"])
+                ctx.count("opens_read")
+                if po is None:
+                    pending.append(None)
+                    ctx.count("opens_read_not_parseable")
+                else:
+                    kind, sender = po
+                    pending.append(sender)
+                    if sender >= 0xFF000000:
+                        ctx.count("opens_with_sender_channel_ge_0xff000000")
+                    if sender >= 0x80000000:
+                        ctx.count("opens_with_sender_channel_ge_0x80000000")
+                    if sender in SENDER_VALUES:
+                        ctx.count("opens_sender_0x%x" % sender)
+                    if len(kind) >= 256:
+                        ctx.count("opens_with_long_kind")
+            elif t == 80:
+                pg = parse_global(e["payload"])
+                n_glob += 1
+                if pg is not None:
+                    ctx.count("global_requests_want_reply_%s" % ("true" if pg[1] else "false"))
+                    if pg[1]:
+                        n_want += 1
+                    if len(pg[0]) >= 256:
+                        ctx.count("global_requests_with_long_name")
+            continue
+        if t == 92:
+            rec, err = parse_open_failure(e["payload"])
+            wit = dict(wit0, reply=e["payload"][:64], unanswered_opens=[p for p in pending][:6])
+            if err is not None:
+                ctx.violation("malformed CHANNEL_OPEN_FAILURE as pre-auth refusal (%s)%s" % (err, context),
+                              "the refusal of a pre-auth channel open does not parse as uint32 recipient, uint32 reason "
+                              "1..4, string, string", wit)
+                if pending:
+                    pending.pop(0)
+                continue
+            ctx.count("refusals_parsed_strictly")
+            ctx.count("open_failures_parsed_strictly")
+            if not pending:
+                ctx.violation("CHANNEL_OPEN_FAILURE without a channel open to answer" + context,
+                              "the victim sent more open failures than opens were read", wit)
+                continue
+            exp = pending.pop(0)
+            if exp is None:
+                ctx.count("open_failures_for_unparseable_opens_recipient_not_compared")
+            elif rec != exp:
+                ctx.violation("CHANNEL_OPEN_FAILURE names another channel than the sender channel of the open%s%s"
+                              % (" (sender channel >= 0xff000000)" if exp >= 0xFF000000 else "", context),
+                              "recipient channel 0x%x in the refusal, the open it answers came from channel 0x%x" % (rec, exp),
+                              dict(wit, expected=exp, got=rec))
+            else:
+                ctx.count("open_failures_matched_to_sender_channel")
+        elif t == 82:
+            n_82 += 1
+            if len(e["payload"]) != 1:
+                ctx.violation("malformed REQUEST_FAILURE as pre-auth refusal (trailing bytes)" + context,
+                              "REQUEST_FAILURE carries no fields", dict(wit0, reply=e["payload"][:64]))
+            else:
+                ctx.count("refusals_parsed_strictly")
+                ctx.count("request_failures_parsed_strictly")
+    if n_82 > n_glob:
+        ctx.violation("more REQUEST_FAILURE messages than global requests read" + context,
+                      "%d failures for %d requests" % (n_82, n_glob), wit0)
+    # RFC 4254 wants no reply at all to want_reply=false; the statement only says "refused": counted, not judged
+    if n_82 > n_want:
+        ctx.count("request_failures_beyond_the_want_reply_requests", n_82 - n_want)
+    if v.is_active() and not v.in_kex:
+        ctx.count("sessions_alive_at_end_checked_for_unanswered_requests")
+        if pending:
+            ctx.violation("pre-auth CHANNEL_OPEN left without CHANNEL_OPEN_FAILURE on a live connection" + context,
+                          "%d open(s) read, not answered, transport still active" % len(pending), dict(wit0, unanswered=pending[:6]))
+        if n_82 < n_want:
+            ctx.violation("pre-auth want_reply GLOBAL_REQUEST left without REQUEST_FAILURE on a live connection" + context,
+                          "%d want_reply requests read, %d failures sent" % (n_want, n_82), wit0)
+
+
+def field_probes(rng, variant):
+    """Messages of the field-value stratum: (type, class, body)."""
+    out = []
+    kinds = ["session", "direct-tcpip", "x11", "forwarded-tcpip", "auth-agent@openssh.com", "foo"]
+    odd = [0, 1, 0x7FFF, 0x7FFFFFFF, 0x80000000, 0xFF000000, 0xFFFFFFFF, 32768]
+    senders = list(SENDER_VALUES)
+    rng.shuffle(senders)
+    for i, sender in enumerate(senders):
+        kind = kinds[(i + variant) % len(kinds)]
+        if variant % 2 and i % 3 == 0:
+            kind = rng.choice(["k" * 256, "session" + "x" * 1000, "é" * 700, "z" * 20000])
+        body = sstr(kind) + u32(sender) + u32(rng.choice(odd)) + u32(rng.choice(odd))
+        if kind in ("direct-tcpip", "forwarded-tcpip"):
+            body += sstr("127.0.0.1") + u32(22) + sstr("10.0.0.1") + u32(4242)
+        elif kind == "x11":
+            body += sstr("10.0.0.1") + u32(6000)
+        out.append((90, "fields", body))
+    names = ["tcpip-forward", "cancel-tcpip-forward", "keepalive@openssh.com", "x", "n" * 256, "name-" + "y" * 5000,
+             "q" * 20000]
+    for i, name in enumerate(names):
+        for want in ((True, False) if (i + variant) % 2 == 0 else (False, True)):
+            body = sstr(name) + (b"\x01" if want else b"\x00")
+            if "tcpip" in name:
+                body += sstr("0.0.0.0") + u32(rng.choice([0, 22, 0xFFFFFFFF]))
+            out.append((80, "fields", body))
+    rng.shuffle(out)
+    return out
+
+
+def run_field_stratum(ctx, rng, deadline):
+    points = ["after_newkeys", "after_service_accept", "after_failed_auth", "after_partial_auth", "after_pk_query",
+              "mid_keyboard_interactive"]
+    reps = ctx.pick(2, 8)
+    i = 0
+    shown = 0
+    for rep in range(reps):
+        for point in points:
+            i += 1
+            if not ctx.mine(i):
+                continue
+            if time.time() > deadline:
+                ctx.count("sessions_not_run_time_cap")
+                continue
+            desc = dict(stratum="field values", point=point, probes=field_probes(rng, rep))
+            if shown < 1:
+                desc["sample"] = True
+                shown += 1
+            ctx.count("sessions")
+            ctx.count("field_value_sessions")
+            try:
+                run_session(ctx, rng, desc, context=" [field values]")
+            except Exception:
+                ctx.inconclusive("harness error: " + traceback.format_exc()[-900:])
+    ctx.require("field_value_sessions", 10 if ctx.quick else 40)
+    ctx.require("refusals_parsed_strictly", 450 if ctx.quick else 2500)
+    ctx.require("open_failures_matched_to_sender_channel", 200 if ctx.quick else 1200)
+    ctx.require("request_failures_parsed_strictly", 200 if ctx.quick else 1200)
+    ctx.require("opens_with_sender_channel_ge_0xff000000", 30)
+    ctx.require("opens_with_sender_channel_ge_0x80000000", 50)
+    for sv in SENDER_VALUES:
+        ctx.require("opens_sender_0x%x" % sv, 10)
+    ctx.require("opens_with_long_kind", 6)
+    ctx.require("global_requests_with_long_name", 20)
+    ctx.require("global_requests_want_reply_true", 80)
+    ctx.require("global_requests_want_reply_false", 80)
+    ctx.require("sessions_alive_at_end_checked_for_unanswered_requests", 150)
 
 
 # ---------------------------------------------------------------------------
@@ -747,6 +953,7 @@ def run(ctx):
             except Exception:
                 ctx.inconclusive("harness error: " + traceback.format_exc()[-900:])
     run_control(ctx, rng)
+    run_field_stratum(ctx, rng, ctx.deadline(180, 1300))
     run_rekey_stratum(ctx, rng, ctx.deadline(190, 1350))
     run_counting_stratum(ctx, rng, ctx.deadline(200, 1400))
     ctx.require("probes_read_by_victim", 450 if ctx.quick else 2500)
